@@ -398,6 +398,32 @@ func genC08(c *Ctx, r *rng.R, i int) {
 		v := gv.Gen(r, t, cfg, 3)
 		c08Pair(c, r, v, tt, class)
 	}
+	// a conversion object is a pure function: used again on another value it answers as a fresh one does
+	if r.Chance(30) {
+		src := gt.Gen(r, gt.Cfg{Depth: 2, DynPct: 35, OptPct: 0, CapPct: 0, MaxWidth: 3})
+		dst := deriveTarget(r, src)
+		if !gt.HasDyn(dst) {
+			dst = gt.Generalize(r, dst)
+		}
+		sT, dT := src.Build(), dst.Build()
+		var conv convert.Conversion
+		if p, _ := recovered(func() { conv = convert.GetConversionUnsafe(sT, dT) }); !p && conv != nil {
+			for k := 0; k < 3; k++ {
+				ct := gt.Resolve(r, src, gt.Cfg{Depth: 1, MaxWidth: 2}).Build()
+				v := []cty.Value{cty.NullVal(ct), cty.UnknownVal(ct), cty.UnknownVal(ct).RefineNotNull()}[r.Intn(3)]
+				var a, b cty.Value
+				var ea, eb error
+				pa, _ := recovered(func() { a, ea = conv(v) })
+				pb, _ := recovered(func() { b, eb = convert.GetConversionUnsafe(sT, dT)(v) })
+				c.Count("oracle_evals")
+				d := map[string]interface{}{"in": src.String(), "out": dst.String(), "v": cq.Show(v), "use": k}
+				if pa != pb || (ea == nil) != (eb == nil) || (!pa && ea == nil && !sameValue(a, b)) {
+					c.Fail("C08/conversion-stateful", fmt.Sprintf("a conversion used before answers %s (err=%v), a fresh one %s (err=%v)", cq.Show(a), ea, cq.Show(b), eb), d)
+					break
+				}
+			}
+		}
+	}
 	// lookup: safe implies unsafe; a safe conversion to a placeholder-free target never fails on values of the source type
 	in, out := t.Build(), tt.Build()
 	var cs, cu convert.Conversion
@@ -446,7 +472,67 @@ func genC08(c *Ctx, r *rng.R, i int) {
 }
 
 // ---------- C09 ----------
+// corpus09: type lists and values whose returned conversions misbehaved before
+func corpus09(c *Ctx) {
+	objT := cty.Object(map[string]cty.Type{"a": cty.EmptyTuple, "b": cty.Object(map[string]cty.Type{"k": cty.Bool})})
+	type item struct {
+		tys    []cty.Type
+		unsafe bool
+		idx    int
+		vals   []cty.Value
+	}
+	items := []item{
+		{[]cty.Type{cty.Map(cty.DynamicPseudoType), cty.DynamicPseudoType, objT}, true, 1,
+			[]cty.Value{cty.NullVal(cty.Tuple([]cty.Type{cty.Bool})), cty.UnknownVal(cty.List(cty.String)), cty.NullVal(cty.String), cty.UnknownVal(cty.Set(cty.Number)).RefineNotNull()}},
+		{[]cty.Type{cty.DynamicPseudoType, objT}, true, 0, []cty.Value{cty.NullVal(cty.EmptyTuple), cty.UnknownVal(cty.Bool)}},
+		{[]cty.Type{cty.Tuple([]cty.Type{cty.Number}), cty.List(cty.DynamicPseudoType), cty.EmptyTuple}, false, 2, []cty.Value{cty.EmptyTupleVal}},
+		{[]cty.Type{cty.List(cty.DynamicPseudoType), cty.Tuple([]cty.Type{cty.String}), cty.EmptyTuple, cty.List(cty.Tuple([]cty.Type{cty.Bool}))}, false, 2, []cty.Value{cty.EmptyTupleVal}},
+		{[]cty.Type{cty.Tuple([]cty.Type{cty.Number}), cty.Tuple([]cty.Type{cty.Number, cty.Number}), cty.List(cty.String)}, false, 0, []cty.Value{cty.TupleVal([]cty.Value{cty.NumberIntVal(1)})}},
+	}
+	for _, it := range items {
+		var ut cty.Type
+		var convs []convert.Conversion
+		p, pm := recovered(func() {
+			if it.unsafe {
+				ut, convs = convert.UnifyUnsafe(it.tys)
+			} else {
+				ut, convs = convert.Unify(it.tys)
+			}
+		})
+		d := map[string]interface{}{"types": fmt.Sprintf("%#v", it.tys), "unsafe": it.unsafe}
+		c.Count("oracle_evals")
+		if p {
+			c.Fail("C09/panic", "unification panicked: "+trunc(pm, 200), d)
+			continue
+		}
+		if isNilType(ut) || it.idx >= len(convs) || convs[it.idx] == nil {
+			continue
+		}
+		for _, v := range it.vals {
+			var ret cty.Value
+			var err error
+			p2, pm2 := recovered(func() { ret, err = convs[it.idx](v) })
+			d2 := map[string]interface{}{"types": d["types"], "unsafe": it.unsafe, "input": it.idx, "v": cq.Show(v)}
+			switch {
+			case p2:
+				c.Fail("C09/panic", "a returned conversion panicked: "+trunc(pm2, 200), d2)
+			case err == nil:
+				if errs := ret.Type().TestConformance(ut); len(errs) != 0 {
+					c.Fail("C09/not-unified-type", fmt.Sprintf("conversion %d yields type %#v, unified type %#v", it.idx, ret.Type(), ut), d2)
+				}
+				if stringsOKSafe(v) && stringsOKSafe(ret) {
+					c.Add("apply", fmt.Sprintf("K09_apply %s %s %d %s %s", cq.List(tyList(it.tys)), cq.Bool(it.unsafe), it.idx, cq.Val(v), resValE(ret, err, false)), d2, true)
+				}
+			}
+		}
+	}
+}
+
 func genC09(c *Ctx, r *rng.R, i int) {
+	if i == 0 {
+		corpus09(c)
+		return
+	}
 	n := 1 + r.Intn(4)
 	cfgT := gt.Cfg{Depth: 2, DynPct: 8, OptPct: 0, CapPct: 0, MaxWidth: 3}
 	base := gt.Gen(r, cfgT)
